@@ -283,6 +283,10 @@ const char *type_to_string(Type type) {
 /* Forward declarations */
 static Type check_statement(TypeChecker *tc, ASTNode *node);
 
+/* The checker of the statement being checked, for block expressions (match arms) met inside
+ * check_expression(), which is not passed one */
+static TypeChecker *g_statement_tc = NULL;
+
 /* Is there a 'break' in this statement that belongs to the loop it is the body of? */
 static bool statement_contains_break(ASTNode *stmt) {
     if (!stmt) return false;
@@ -3032,11 +3036,19 @@ static Type check_expression_impl(ASTNode *expr, Environment *env) {
              */
             Type block_type = TYPE_VOID;
             
-            /* Create a temporary TypeChecker for statement type checking */
+            /* The statements are checked in the context of the statement this block expression is
+             * part of (function result type, unsafe state); outside statement checking
+             * (later stages re-checking an expression) there is none */
             TypeChecker temp_tc;
+            if (g_statement_tc) {
+                temp_tc = *g_statement_tc;
+            } else {
+                memset(&temp_tc, 0, sizeof(temp_tc));
+                temp_tc.current_function_return_type = TYPE_UNKNOWN;
+            }
             temp_tc.env = env;
             temp_tc.has_error = false;
-            temp_tc.loop_depth = 0;
+            temp_tc.loop_depth = 0;   /* as before: no break/continue out of a block expression */
             
             for (int i = 0; i < expr->as.block.count; i++) {
                 ASTNode *stmt = expr->as.block.statements[i];
@@ -3050,6 +3062,11 @@ static Type check_expression_impl(ASTNode *expr, Environment *env) {
                         block_type = stmt_type;
                     }
                 }
+            }
+            if (temp_tc.has_error) {
+                /* an error inside the block is an error of the program */
+                g_typecheck_error_diagnostics++;
+                if (g_statement_tc) g_statement_tc->has_error = true;
             }
             return block_type;
         }
@@ -3170,7 +3187,10 @@ static Type check_statement(TypeChecker *tc, ASTNode *stmt) {
         return TYPE_VOID;
     }
 
+    TypeChecker *enclosing_tc = g_statement_tc;
+    g_statement_tc = tc;
     Type result = check_statement_impl(tc, stmt);
+    g_statement_tc = enclosing_tc;
     g_check_stmt_depth--;
     return result;
 }
